@@ -8,6 +8,9 @@
 //	  fn <E>             (E = F.. | M..) constructs package, receiver type and *types.Func; prints
 //	                     ssa.FuncName(org=false), ssa.FuncName(org=true), cl.typesFuncName full / in-package name
 //	  gl <E>             (E = G..) ssa.FullName(pkg, name)
+//	  wn cur name pkg recv k Ty*k s idx*s ptr
+//	                     ssa.FuncName(cur, name, receiver, false) for a receiver type declared in package pkg (possibly
+//	                     another package than cur, possibly inside a function scope): the naming of go/ssa's synthetic functions
 //	-load <dir>          type-checks the generated multi-package source tree of <dir>/order.json, builds go/ssa
 //	                     (same builder mode as internal/build), and prints for every function, wrapper, instance,
 //	                     closure and global the STRUCTURAL entity term (derived from go/ssa + go/types only) and the name
@@ -17,6 +20,7 @@
 //
 //	Ty := B name | N pkg name k Ty*k s idx*s | P Ty | S Ty | A n Ty | M Ty Ty | C dir Ty | O text
 //	E  := F pkg name | M pkg recv k Ty*k ptr name | K idx E | I k Ty*k E | G pkg name | BD E | TH E | WR E
+//	L  := L sfx pkg recv k Ty*k s idx*s ptr name     synthetic function whose receiver type is function-local
 package main
 
 import (
@@ -219,6 +223,26 @@ func handle(line string) (out string) {
 	case "ty":
 		typ := w.ty(t)
 		return "ok " + hx(abi.TypeArgs([]types.Type{typ}))
+	case "wn":
+		cur := w.pkg(t.str())
+		name := t.str()
+		path, recv := t.str(), t.str()
+		k := t.num()
+		targs := make([]types.Type, k)
+		for i := range targs {
+			targs[i] = w.ty(t)
+		}
+		sn := t.num()
+		scope := make([]int, sn)
+		for i := range scope {
+			scope[i] = t.num()
+		}
+		rt := w.namedInst(path, recv, targs, scope)
+		if t.num() == 1 {
+			rt = types.NewPointer(rt)
+		}
+		rv := types.NewVar(token.NoPos, w.pkg(path), "r", rt)
+		return "ok " + hx(llssa.FuncName(cur, name, rv, false))
 	case "gl":
 		if t.next() != "G" {
 			return "bad-op"
@@ -368,9 +392,40 @@ func methodTerm(recvT types.Type, name string) string {
 		fail("receiver type without package: " + obj.Name())
 	}
 	if len(scopePath(obj)) != 0 {
-		fail("receiver type is local: " + obj.Name())
+		panic(localRecv{obj, n, ptr, name})
 	}
 	return fmt.Sprintf("M %s %s %s %d %s", hx(obj.Pkg().Path()), hx(obj.Name()), tyList(n.TypeArgs()), ptr, hx(name))
+}
+
+// a synthetic function whose receiver type is declared inside a function
+type localRecv struct {
+	obj  *types.TypeName
+	n    *types.Named
+	ptr  int
+	name string
+}
+
+func (l localRecv) term(sfx string) string {
+	sp := scopePath(l.obj)
+	s := fmt.Sprintf("L %s %s %s %s %d", hx(sfx), hx(l.obj.Pkg().Path()), hx(l.obj.Name()), tyList(l.n.TypeArgs()), len(sp))
+	for _, i := range sp {
+		s += fmt.Sprintf(" %d", i)
+	}
+	return s + fmt.Sprintf(" %d %s", l.ptr, hx(l.name))
+}
+
+// synthTerm is the term of a bound / thunk / wrapper function: an entity term, or an L term for a local receiver type
+func synthTerm(tag, sfx string, recvT types.Type, name string) (term string, local bool) {
+	defer func() {
+		if e := recover(); e != nil {
+			if l, ok := e.(localRecv); ok {
+				term, local = l.term(sfx), true
+				return
+			}
+			panic(e)
+		}
+	}()
+	return tag + " " + methodTerm(recvT, name), false
 }
 
 func entityTerm(fn *ssa.Function) (term string, kind string) {
@@ -392,11 +447,23 @@ func entityTerm(fn *ssa.Function) (term string, kind string) {
 	if fn.Origin() == nil && fn.Synthetic != "" {
 		switch {
 		case strings.HasSuffix(name, "$bound") && len(fn.FreeVars) == 1:
-			return "BD " + methodTerm(fn.FreeVars[0].Type(), strings.TrimSuffix(name, "$bound")), "bound"
+			if t, local := synthTerm("BD", "$bound", fn.FreeVars[0].Type(), strings.TrimSuffix(name, "$bound")); local {
+				return t, "local-bound"
+			} else {
+				return t, "bound"
+			}
 		case strings.HasSuffix(name, "$thunk") && sig.Params().Len() > 0:
-			return "TH " + methodTerm(sig.Params().At(0).Type(), strings.TrimSuffix(name, "$thunk")), "thunk"
+			if t, local := synthTerm("TH", "$thunk", sig.Params().At(0).Type(), strings.TrimSuffix(name, "$thunk")); local {
+				return t, "local-thunk"
+			} else {
+				return t, "thunk"
+			}
 		case sig.Recv() != nil:
-			return "WR " + methodTerm(sig.Recv().Type(), name), "wrapper"
+			if t, local := synthTerm("WR", "", sig.Recv().Type(), name); local {
+				return t, "local-wrapper"
+			} else {
+				return t, "wrapper"
+			}
 		case fn.Pkg != nil:
 			return fmt.Sprintf("F %s %s", hx(fn.Pkg.Pkg.Path()), hx(name)), "synthetic-func"
 		}
